@@ -47,7 +47,7 @@ def shards(path, prefix, max_lines):
         for line in f:
             if line.startswith('{"ev":"fin"'):
                 continue
-            if fo is None or (n >= max_lines and line.startswith('{"ev":"reset"')):
+            if fo is None or (n >= max_lines and '"ev":"reset"' in line[:60]):
                 if fo:
                     fo.write('{"ev":"fin"}\n')
                     fo.close()
